@@ -637,7 +637,19 @@ func (ex *Exec) verifyTop(fn *ssa.Function, con *Contract) {
 				}
 				parts = append(parts, Implies(r.guard, t))
 			}
-			ex.oblige("ensures:"+cl.Label, "ensures", pos, TTrue, And(parts...))
+			// one obligation per return site (their conjunction in one query is needlessly
+			// hard); sites where the clause holds trivially are not listed
+			emitted := 0
+			for k, part := range parts {
+				if part.IsTrue() {
+					continue
+				}
+				emitted++
+				ex.oblige(fmt.Sprintf("ensures:%s/ret%d", cl.Label, k+1), "ensures", pos, TTrue, part)
+			}
+			if emitted == 0 {
+				ex.oblige("ensures:"+cl.Label, "ensures", pos, TTrue, TTrue)
+			}
 			continue
 		}
 		t, err := post.EvalBool(cl.Expr)
